@@ -636,6 +636,33 @@ Proof.
   apply Forall_app in Hv. destruct Hv as [Hv _]. rewrite run_snoc. apply step_no_abort; [exact Hv|apply IH; exact Hv].
 Qed.
 
+(* C04 / C02 over histories: profit attribution, and the payout formula of a participation once its market's bets are all settled *)
+Theorem attribution_over_histories ops m x p : Forall user_op ops -> get_ms (run s0 ops) m = Some x -> In p (bk_parts (ms_book x)) ->
+  p_profit p = exp_profit x (p_idx p).
+Proof.
+  intros Hv Hg Hp. pose proof (g2_reachable ops Hv) as G. apply (po_profit _ _ (se_parts _ (g_all _ (g2_g1 _ G) _ (get_ms_in _ _ _ Hg)) p Hp)).
+Qed.
+
+Theorem payout_over_histories ops m x p w : Forall user_op ops -> get_ms (run s0 ops) m = Some x -> In p (bk_parts (ms_book x)) ->
+  bk_status (ms_book x) <> BK_ACTIVE -> k_status (ms_mkt x) = MK_DECLARED -> k_winners (ms_mkt x) = [w] ->
+  (forall b, In b (ms_bets x) -> b_status b = BS_SETTLED) /\
+  p_liq p + p_profit p =
+    p_liq p + (stake_i (p_idx p) (bets_of x) - stake_io (p_idx p) w (bets_of x)) - pay_io (p_idx p) w (bets_of x) /\
+  0 <= p_liq p + p_profit p.
+Proof.
+  intros Hv Hg Hp Hna Hd Hw. pose proof (g2_reachable ops Hv) as G. pose proof (get_ms_in _ _ _ Hg) as Hin.
+  pose proof (g_all _ (g2_g1 _ G) _ Hin) as S. cbn [snd] in S. pose proof (g1_closed _ _ (g2_g1 _ G) Hin) as C. cbn [snd] in C.
+  split; [intros b Hbb; pose proof (C Hna b Hbb) as E; unfold is_settled in E; apply Z.eqb_eq in E; exact E|].
+  apply payout_formula; assumption.
+Qed.
+
+Theorem refund_over_histories ops m x p : Forall user_op ops -> get_ms (run s0 ops) m = Some x -> In p (bk_parts (ms_book x)) ->
+  k_status (ms_mkt x) <> MK_DECLARED -> p_profit p = 0 /\ 0 <= p_liq p /\ 0 <= p_fee p.
+Proof.
+  intros Hv Hg Hp Hd. pose proof (g2_reachable ops Hv) as G. destruct (se_parts _ (g_all _ (g2_g1 _ G) _ (get_ms_in _ _ _ Hg)) p Hp) as [K1 K2 K3 K4].
+  cbn [snd] in K4. rewrite K4, exp_profit_nd by exact Hd. repeat split; assumption.
+Qed.
+
 (* equivalently: no operation of any history outputs Panic *)
 Theorem no_panic ops o : Forall user_op ops -> snd (step (run s0 ops) o) <> Panic.
 Proof.
